@@ -124,9 +124,19 @@ def r06_2(ck, F):
                      if any(w[0] == "await" and w[2] == a["poll_bb"] for w in mir.walk(b.expr(tt["a"][0])) if isinstance(w, tuple) and w)]
             ok = ok and bool(tries)
         ck.expect(ok, f"run#{nm}-error", f"{nm}(..).await?", f"errors of {nm} are not propagated by run", b.loc(0))
-    err_rets = [bb for bb, i, v in b.result_stores("Err")]
-    ck.expect(len(err_rets) >= 2, "run#task-errors", f"{len(err_rets)} explicit Err returns (send task, receive task)",
-              f"run has {len(err_rets)} explicit Err returns (expected send task + receive task)", b.loc(0))
+    # the Err outcome of a select! branch result (send task, receive task) ends run with an error — written as
+    # `match res { Err(e) => return Err(e), .. }` or as `res?`
+    polls = [s_["poll_bb"] for s_ in select_info(b)]
+    arms_with_terminal_err = set()
+    for sb, tb, m, e in outcome_edges(b):
+        if m != "Err" or not (isinstance(e, tuple) and e and e[0] == "proj" and e[2] and str(e[2][0]).startswith("@_")):
+            continue
+        after = b.reach([tb], avoid=[sb])
+        if not (after & set(polls)) and (after & set(b.returns())):
+            arms_with_terminal_err.add(e[2][0])
+    ck.expect(len(arms_with_terminal_err) >= 2, "run#task-errors",
+              f"the Err outcome of {len(arms_with_terminal_err)} select! branches ends run with that error (send task, receive task)",
+              f"run returns the error of only {len(arms_with_terminal_err)} of its tasks (expected send task and receive task)", b.loc(0))
     rt = F.main_body("chmux::mux::ChMux::recv_task")
     to = [bb for bb, i, rv in rt.aggregates("chmux::ChMuxError", "Timeout")]
     rearm = [bb for bb, t in rt.calls() if (callee(t) or "").endswith("get_connection_timeout")]
